@@ -32,6 +32,17 @@ pub fn classify(b: &Built, st: &mut Stats) {
     if l0.width() >= 4 {
         st.class("plans_width>=4");
     }
+    if l0.width() >= 7 {
+        st.class("plans_width>=7_more_groups_than_the_inline_capacity");
+    }
+    if flat.sys.iter().any(|s| {
+        let mut d = s.deps.clone();
+        d.sort();
+        d.dedup();
+        d.len() >= 5
+    }) {
+        st.class("plans_with_more_than_4_distinct_dependencies");
+    }
     let groups2: usize = b
         .layouts
         .by_bid
